@@ -37,7 +37,10 @@ Resync(k) ==
       rules == a.op \in {"learn", "forget", "import", "add_signature", "threshold"} IN
   /\ ~ENABLED (DAct(a) /\ Match(r))
   /\ drift' = TRUE
-  /\ threshold' = r.post.threshold /\ active' = SetOf(r.post.active)
+  \* the rule set and the threshold are GIVEN by the calls (learn / forget / import / add_signature / set_threshold): never re-read from the gate
+  /\ threshold' = (IF a.op = "threshold" THEN a.t ELSE threshold)
+  /\ active' = (CASE a.op = "learn" -> active \cup {a.s} [] a.op = "forget" -> active \ {a.s} [] a.op = "import" -> active \cup Learnable
+                   [] a.op = "add_signature" -> active \cup {a.s} [] OTHER -> active)
   /\ blocked' = (IF sigblock THEN blocked \cup {a.x} ELSE blocked) /\ everBlocked' = (IF sigblock THEN everBlocked \cup {a.x} ELSE everBlocked)
   /\ times' = times /\ now' = (IF a.op = "advance" THEN now + 1 ELSE now)
   /\ allowedAt' = (IF IsF(r) /\ r.obs.allowed THEN Append(Recent, now) ELSE allowedAt)
